@@ -99,6 +99,11 @@ def pair_per_live_record(ctx: Any, R: str) -> List[Ob]:
             out.append('PAIR')
         return out
 
+    adds = set(an['adds'])
+
+    def eff_a(node: Any, evl: Any) -> List[Any]:
+        return eff(node, evl) + ['ADD' for c in fd.node_calls(node, evl) if call_name(c) in MUTATORS and isinstance(c.func, ast.Attribute) and isinstance(c.func.value, ast.Name) and c.func.value.id in adds]
+
     obs: List[Ob] = []
     for cached in (True, False):
         for recent in (True, False):
@@ -106,6 +111,13 @@ def pair_per_live_record(ctx: Any, R: str) -> List[Ob]:
             oc, und = fd.run_paths(ctx.prog, f.module, cfg, atoms, eff, start=head, stop=lambda n: n is head, loop_bound=1, for_iter=lambda n, e: True)
             counts = {strip_ret(t).count('PAIR') for t in oc}
             obs.append(ob(R, f, f'live record, {"already cached" if cached else "new"}{", cached copy recent" if cached and recent else ""}', 'exactly one (new, previous) pair is queued for the listeners', counts == {1}, f'pairs queued on the feasible paths: {sorted(counts)}'))
+    # whatever its type, a live record that is not cached yet is queued for the cache (the responder reads `seen on the wire less
+    # than a second ago` from the cache for every record it can answer with: A, AAAA, PTR, TXT, SRV and NSEC)
+    for typ, nm in ((1, 'A'), (28, 'AAAA'), (12, 'PTR'), (16, 'TXT'), (33, 'SRV'), (47, 'NSEC')):
+        atoms = {'.is_expired()': False, '.async_get_unique()': None, '.ttl': 4500, '.type': typ, '.unique': typ != 12}
+        oc, und = fd.run_paths(ctx.prog, f.module, cfg, atoms, eff_a, start=head, stop=lambda n: n is head, loop_bound=1, for_iter=lambda n, e: True)
+        seqs = {tuple(sorted(x for x in strip_ret(t) if x in ('PAIR', 'ADD'))) for t in oc}
+        obs.append(ob(R, f, f'new live {nm} record', 'it is reported to the listeners and queued for the cache', seqs == {('ADD', 'PAIR')}, f'effects on the feasible paths: {sorted(seqs)}'))
     return obs
 
 
